@@ -71,6 +71,12 @@ partial def loop (strict : Bool) (h : IO.FS.Stream) (out : IO.FS.Stream) (acc : 
   if line.isEmpty then return acc
   let line := (line.dropEndWhile (fun c => c == '\n' || c == '\r')).toString
   if line.isEmpty then loop strict h out acc else
+  if line.startsWith "scan " then
+    -- exhaustive pre-filtered scan by the harness (`scan <group> <n> => ok`): n inputs on which the real code agreed
+    -- with the harness-side filter; the disagreeing ones precede this line as ordinary requests
+    let n := (((line.splitOn " => ").headD "").splitOn " ").getD 2 "0" |>.toNat!
+    loop strict h out { acc with n := acc.n + n, dist := acc.dist.insert "L1_scan" ((acc.dist.getD "L1_scan" 0) + n) }
+  else
   match line.splitOn " => " with
   | [req, ans] =>
     let v := handle strict req ans
